@@ -1,7 +1,7 @@
 SPECIFICATION Spec
 CONSTANTS
   Emit = TRUE
-  Ghosts = FALSE
+  Ghosts = TRUE
   SepMode = "all"
 INVARIANTS RoundTrip EmitInv
 CHECK_DEADLOCK FALSE
